@@ -23,7 +23,8 @@ def canary_script(path):
 def flags_for(mode):
     return (['--threadless', '--enable-web-server', '--enable-reverse-proxy'],
             {'plugins': [plugins.web_stamp(), plugins.reverse([(r'/r1$', [b'http://up1.test/p1']),
-                                                               (r'/r2$', [b'http://up2.test/p2'])], name='VerifRevC05')]})
+                                                               (r'/r2$', [b'http://up2.test/p2']),
+                                                               (r'/rs$', [b'https://ups.test/p'])], name='VerifRevC05s')]})
 
 
 def adversaries(tier):
@@ -188,6 +189,21 @@ def scenarios(tier):
                                    '_fault_clients': {'c0'}, '_fault_addrs': ADV_ADDRS, '_twin': 3 if twin else None,
                                    '_twin_ref': (mode, name, script, origins, dns, net) if twin else None},
                                   **({'_sockbuf': 4096} if 'not-reading' in name else {}))))
+    # an upstream that accepts the connection and then says nothing, where the proxy must speak TLS to it (reverse
+    # route to an https:// upstream): the handshake is a blocking call on the one thread that serves everybody.
+    # It cannot return in this single-threaded world, so the execution runs under its own short real-time guard
+    # (the SUT sits in SSL_do_handshake; a guard that fires IS the observation).
+    for mode in ('local', 'remote'):
+        fa, fo = flags_for(mode)
+        out.append(Scenario(
+            '%s/rev-https-upstream-silent/canary@3' % mode, fa, flags_opts=fo, mode=mode,
+            clients=[dict(script=[('send', b'GET /rs HTTP/1.1\r\nHost: f\r\n\r\n'), ('wait_eof',)]),
+                     dict(script=canary_script(b'c'), start_turn=3),
+                     dict(script=canary_script(b't'), start_turn='idle')],
+            origins={('10.0.0.7', 443): lambda: RawOrigin(greeting=[]), ('10.0.0.1', 80): lambda: HttpOrigin([[CANARY_RESP]])},
+            dns={'ups.test': '10.0.0.7', 'h.test': '10.0.0.1'}, kinds='', horizon=600,
+            features={'mode': mode, 'role': 'reverse', 'adversary': 'rev-https-upstream-silent', 'canary_offset': '3',
+                      '_bound': 0, '_watchdog': 5}))
     return out + tls_front_scenarios(tier) + idle_scenarios(tier) + neighbour_scenarios(tier)
 
 
@@ -328,6 +344,11 @@ def twin_reference(scn):
 
 def check(w):
     out = []
+    if w.hung:
+        # the guard fired: the one thread that serves every connection never came back from a call
+        out.append({'symptom': 'event_loop_blocked_in_a_socket_call', 'features': {},
+                    'detail': {'calls': [w.run_exc], 'last_io': [list(map(str, t)) for t in w.trace[-4:]]}})
+        return out
     if w.died or w.run_exc:
         out.append({'symptom': 'executor_died', 'features': {}, 'detail': w.run_exc})
         return out
